@@ -96,6 +96,7 @@ SIGS = {
     "shared_gaps:map": (["M"], "P", False),
     "minus_gaps:arr": (["P"], "M", False),
     "minus_gaps:map": (["M"], "M", False),
+    "make_seq_feature_map": (["FM"], "FM", False),
     "joined_segments": (["P"], "M", False),
     "from_aligned_segments": (["P", "Z"], "M", False),      # classmethod: cls(...) is the constructor
     "gap_coords_to_map": (["D", "Z"], "M", False),
@@ -522,6 +523,10 @@ class Fn:
                 and len(args[0].args) == 1 and isinstance(args[0].args[0], ast.Starred):
             v = self.need(self.expr(args[0].args[0].value, env, binds), "P", e)
             return V("T", items=[V("L", f"(map fst {paren(v.t)})", py=True), V("L", f"(map snd {paren(v.t)})", py=True)])
+        if fn == "FeatureMap" and not args and set(kw) == {"spans", "parent_length"}:
+            sp = self.need(self.expr(kw["spans"], env, binds), "SL", e)
+            n = self.need(self.expr(kw["parent_length"], env, binds), "Z", e)
+            return V("FM", f"(mk_fmap {paren(sp.t)} {n.t})")
         if fn == "IndelMap" and not args and set(kw) == {"gap_pos", "gap_lengths", "parent_length"}:
             gp = self.need(self.expr(kw["gap_pos"], env, binds), "L", e)
             cl = self.need(self.expr(kw["gap_lengths"], env, binds), "L", e)
@@ -908,6 +913,8 @@ class Fn:
             fail(node, "expected a pair of arrays")
         if kind == "M" and v.kind == "M":
             return v.t
+        if kind == "FM" and v.kind == "FM":
+            return v.t
         if kind == "OPAIR" and v.kind == "T" and len(v.items) == 2:
             if all(x.kind == "Z" for x in v.items):
                 return f"Some ({v.items[0].t}, {v.items[1].t})"
@@ -1291,6 +1298,7 @@ class Translator:
         self.defs = {}
         self.records = []
         self.uses_num_gaps = False
+        self.list_hints = {("make_seq_feature_map", "spans"): "SL"}
         self.wanted = []
         self.find()
 
@@ -1382,6 +1390,9 @@ class Translator:
             elif k == "M":
                 env[p] = V("M", p)
                 sig.append(f"({p} : imap)")
+            elif k == "FM":
+                env[p] = V("FM", cn(p))
+                sig.append(f"({cn(p)} : fmap)")
             elif k == "D":
                 env[p] = V("D", cn(p))
                 sig.append(f"({cn(p)} : list (Z * Z))")
@@ -1445,7 +1456,7 @@ class Translator:
     def emit(self):
         out = [
             "(* GENERATED by harness/translators/indelmap.py from src/cogent3/core/location.py - do not edit *)",
-            "From CG3 Require Import Lib.PyZ Lib.Val Model.IndelMap Model.IndelMapFixed Model.NumpyPrims.",
+            "From CG3 Require Import Lib.PyZ Lib.Val Model.IndelMap Model.IndelMapFixed Model.NumpyPrims Model.FeatureMap Model.FeatureMapPrims.",
             "",
             "Module G.",
             "",
@@ -1458,7 +1469,7 @@ class Translator:
         order = ["_gap_spans", "_update_lengths", "__len__", "get_gap_lengths", "get_seq_index", "get_align_index", "__getitem__slice", "__getitem__int",
                  "__add__", "__mul__", "nucleic_reversed", "get_coordinates", "get_gap_coordinates", "get_gap_align_coordinates", "merge_maps", "nongap", "spans",
                  "span_and_span", "coords_intersect", "coords_minus_coords", "shared_gaps:arr", "shared_gaps:map",
-                 "minus_gaps:arr", "minus_gaps:map", "joined_segments", "gap_coords_to_map", "from_aligned_segments"]
+                 "minus_gaps:arr", "minus_gaps:map", "joined_segments", "gap_coords_to_map", "from_aligned_segments", "make_seq_feature_map"]
         for f in order:
             out.append(self.function(f))
             out.append("")
